@@ -81,6 +81,7 @@ class Runner:
                                          extra_env=g.get("env"))
                 if rc != 0:
                     self.broken.append(("harness-run", "harness %s failed: %s" % (g["test"], out.strip()[-1200:])))
+                    self.note_crash(g["test"], out)
                 for mode, fname in g.get("files", []):
                     path = os.path.join(self.outdir, fname)
                     if not os.path.exists(path):
@@ -113,6 +114,25 @@ class Runner:
         self.mismatches = mismatches
         rc = self.verdict(stmts, assumptions, cone, time.time() - t0)
         return rc
+
+    # ------------------------------------------------------------------
+    def note_crash(self, test, out):
+        """A panic inside a goroutine of the library kills the harness process. The scenario that was running is on
+        disk (<file>.current, written at every BEGIN line); it and the panic are reported as the failing input."""
+        m = re.search(r"^(panic: .*|fatal error: .*)$", out, re.M)
+        if not m:
+            return
+        tail = out[m.start():]
+        frames = re.findall(r"^(github\.com/lightninglabs/lightning-node-connect/\S+)\(", tail, re.M)
+        where = frames[0].split("lightning-node-connect/")[-1] if frames else "?"
+        cur = []
+        for fn in sorted(os.listdir(self.outdir)):
+            if fn.endswith(".current"):
+                cur.append("%s: %s" % (fn[:-8], open(os.path.join(self.outdir, fn), errors="replace").read().strip()))
+        self.oracle_fails.append(("%s:process-crash:%s" % (self.prop.lower(), where),
+                                  "generator %s (seed %d): the process died with `%s` in %s; scenario running: %s; trace: %s" % (
+                                      test, self.seed, m.group(1)[:200], where, " | ".join(cur) or "?",
+                                      " / ".join(l.strip() for l in tail.splitlines()[1:14])[:900])))
 
     # ------------------------------------------------------------------
     def describe_coq_failure(self, out):
